@@ -1,4 +1,5 @@
-\* C19 emission (quick tier): every terminal behaviour for <= 3 versions, printed as CASE lines
+\* C19 emission (quick tier): every terminal behaviour for <= 3 versions, printed as CASE lines; each
+\* input with one of the three flavour sets, rotating over the inputs (FlavourPhase is set from the seed)
 \* (the same run checks the invariants; termination: MC_UpdateFile_live.cfg)
 SPECIFICATION Spec
 CONSTANTS
@@ -7,8 +8,13 @@ CONSTANTS
   FlavourSets = {{"SHA1"}, {"SHA256"}, {"SHA1", "SHA256"}}
   Mode = "code"
   Runs = 1
+  FlavourPhase = 0
+  FaultKinds = {"none", "patchCorrupt", "patchTruncated", "badLastPatch", "wrongResultHash", "indexMissing", "indexGarbage", "indexEmpty", "writeFails", "renameFails"}
+  Entries = {"update_file", "download_file", "replace_file"}
   RememberIndex = FALSE
   Emit = TRUE
+  EmitEvery = 1
+  EmitPhase = 0
 INVARIANTS TypeOK Converges NeverCorrupt NoTempLeft AlwaysOldOrNew FaultRaises IndexFaultConverges
            HashFaultWritesNothing GarbledNeverApplied ByPatchesWhenListed
 CHECK_DEADLOCK FALSE
